@@ -57,4 +57,29 @@ compares the implementation with numpy's own n-ary `result_type` and counts the 
 theorem dtype_is_promotion_of_all (c : DType × Bool) (cs : List (DType × Bool)) :
     inferDtype (c :: cs) = some (cs.foldl (fun d x => promote d x.1) c.1) := rfl
 
+/-! ### numpy's promotion of several coefficient types at once (`Np.DT.promoteAll`, a transcription of
+`PyArray_PromoteDTypeSequence`; compared with `numpy.result_type` on every pair and triple of the 14 types and on random
+longer tuples by every run) -/
+
+/-- for two types it is the pairwise table -/
+theorem promoteAll_pair : ∀ a ∈ all, ∀ b ∈ all, promoteAll [a, b] = some (promote a b) := by decide +kernel
+
+/-- it does not depend on the order in which the types are given (all 2744 triples, all six orders) -/
+theorem promoteAll_triple_symmetric : ∀ a ∈ all, ∀ b ∈ all, ∀ c ∈ all,
+    promoteAll [a, b, c] = promoteAll [b, a, c] ∧ promoteAll [a, b, c] = promoteAll [a, c, b] ∧
+    promoteAll [a, b, c] = promoteAll [c, b, a] := by decide +kernel
+
+/-- it is not the left fold of the pairwise table: the fold over int8, uint16, complex64 ends in complex128 (int8 and
+uint16 meet in int32 first), numpy - and the constructor, which asks numpy - answer complex64; the fold even depends on
+the order -/
+theorem promotion_is_not_a_fold :
+    inferDtype [(.i8, false), (.u16, false), (.c64, false)] = some .c128 ∧
+    inferDtype [(.c64, false), (.i8, false), (.u16, false)] = some .c64 ∧
+    promoteAll [.i8, .u16, .c64] = some .c64 := by decide +kernel
+
+/-- the inferred coefficient type of the constructor is numpy's promotion of all the coefficient types given: it
+mentions neither the retain flags nor which coefficients are all zero -/
+theorem inferred_dtype_is_numpy_promotion (cols : List (DType × Bool)) :
+    inferDtypeN promoteAll cols = promoteAll (cols.map (·.1)) := rfl
+
 end Np.Props.C12
